@@ -100,7 +100,7 @@ class C19(Engine):
     }
     rule = (
         "case = settings (4 cache switches, mtime granularity fine/1s/2s, initial bindings of the names the code's parse depends on) x history of 4-30 steps from edit(body, version) / touch / "
-        "restore an older copy (older mtime) / clock step (0, ms, s, h, backwards) / run .xsh script / run .py script / run code string (8 templates incl. near-duplicates, modes exec and single) / switch "
+        "restore an older copy (older mtime) / clock step (0, ms, s, h, backwards) / run .xsh script / run .py script (directly or through a symlink to it) / run code string (8 templates incl. near-duplicates, modes exec and single) / switch "
         "flips / rebind / entry damage (truncate at one length; truncate at EVERY byte length for .py entries and all header lengths + sampled body lengths for .xsh entries; foreign xonsh version; "
         "foreign Python version; garbage header; 2000-byte header; empty; header only; bit flips and garbage tails that marshal refuses; directory in place; unreadable; cache directory unwritable) / FaultFS failing call at a cache read-open / "
         "write-open / write site of the next run (5 errnos, short write) / writer crash at a site with torn write (forked grandchild). every run is compared with the same source run uncached. "
@@ -118,7 +118,7 @@ class C19(Engine):
         "real": ["codecache.run_script_with_cache / run_code_with_cache / script_cache_check / code_cache_check / _check_cache_versions / update_cache / get_cache_filename / code_cache_name / compile_code / should_use_cache / run_compiled_code", "execer.Execer (real parser and compiler)", "tools.is_writable_file", "real files, marshal, kernel permission checks (uid 65534)"],
         "stub": ["clock: mtimes written with os.utime from the simulated clock", "FaultFS proxies for open/os in xonsh.codecache (failing calls, short writes, crash points)", "subprocess entry points of the session replaced by recorders"],
     }
-    expected_probes = ["valid_hit", "first_run_no_entry", "newer_source_recompiled", "stale_precondition_unmet", "same_tick_edit", "clock_backwards", "older_copy_restored", "truncation_runs", "truncation_complete_enumerations", "foreign_version", "garbage_header", "directory_in_place", "unreadable_entry", "dir_unwritable", "failing_call_fired", "short_write_fired", "crash_fired", "rebuilt_after_damage", "switch_off_run", "code_near_duplicate", "code_mode_switch", "rebind_between_runs", "raising_script", "syntax_error_script", "body_damage_refused_by_marshal"]
+    expected_probes = ["valid_hit", "first_run_no_entry", "newer_source_recompiled", "stale_precondition_unmet", "same_tick_edit", "clock_backwards", "older_copy_restored", "truncation_runs", "truncation_complete_enumerations", "foreign_version", "garbage_header", "directory_in_place", "unreadable_entry", "dir_unwritable", "failing_call_fired", "short_write_fired", "crash_fired", "rebuilt_after_damage", "switch_off_run", "code_near_duplicate", "code_mode_switch", "rebind_between_runs", "raising_script", "syntax_error_script", "body_damage_refused_by_marshal", "run_through_symlink"]
 
     def warmup(self):
         procworld.warm(extra_traced=())
@@ -131,7 +131,7 @@ class C19(Engine):
     def _gen_op(self, rng):
         r = rng.random()
         if r < 0.22:
-            return {"k": "run", "t": rng.choice(("xsh", "xsh", "py"))}
+            return {"k": "run", "t": rng.choice(("xsh", "xsh", "py")), "via": rng.choice((None, None, "link"))}
         if r < 0.36:
             return {"k": "code", "i": rng.randrange(len(CODES)), "v": rng.choice((1, 1, 2)), "mode": rng.choice(("exec", "single", "single"))}
         if r < 0.48:
@@ -306,8 +306,9 @@ class C19(Engine):
         cc = self.cc
         ex = self.XSH.execer
         if kind in ("xsh", "py"):
-            path = self.src[kind]
-            cf = cc.get_cache_filename(path, code=False)
+            # (the same script may be addressed through a symlink, e.g. ~/bin/tool -> ~/src/tool.xsh: one entry, keyed by the real path)
+            path = self.link[kind] if self.via == "link" else self.src[kind]
+            cf = cc.get_cache_filename(self.src[kind], code=False)
             return kind, cf, (lambda glb: cc.run_script_with_cache(path, ex, glb=glb, loc=None, mode="exec")), "exec"
         code = CODES[i].format(v=v)
         # which file holds the entry of (code, mode) is learnt from what the real code writes (see _run)
@@ -612,13 +613,25 @@ class C19(Engine):
         self.step = -1
         self._write_src("xsh", case["body0"][0], 1)
         self._write_src("py", case["body0"][1], 1)
+        self.link = {"xsh": os.path.join(top, "src", "l.xsh"), "py": os.path.join(top, "src", "m.py")}
+        self.via = None
+        for k_ in ("xsh", "py"):
+            os.symlink(os.path.basename(self.src[k_]), self.link[k_])
+            # the link itself is old and never changes: only the file it points to is edited
+            os.utime(self.link[k_], (T0 - 1000.0, T0 - 1000.0), follow_symlinks=False)
         last_code = {}
         for i, op in enumerate(case["ops"]):
             self.step = i
             k = op["k"]
             try:
                 if k == "run":
-                    self._run(op["t"])
+                    self.via = op.get("via")
+                    if self.via:
+                        self.probes["run_through_symlink"] += 1
+                    try:
+                        self._run(op["t"], label="run via symlink" if self.via else None)
+                    finally:
+                        self.via = None
                 elif k == "code":
                     code = CODES[op["i"]].format(v=op["v"])
                     if any(c != code and c.strip().replace(" ", "") == code.strip().replace(" ", "") for c in last_code):
